@@ -2,6 +2,8 @@ import PqModel.SeekLayers
 import PqModel.ReaderSeek
 import PqModel.SeekBytes
 import PqModel.SeekUnaligned
+import PqModel.ReaderCursor
+import PqModel.ReadRowsValues
 
 /-! # C08 — the layers above and below the page-granularity model
 
@@ -70,38 +72,54 @@ example (hi : Bool) (cs : List GoodChunk) (off len : Nat)
       ((rangeM (multiM (cs.map (pagesOf hi))) off len hwin).outs (rangeM (multiM (cs.map (pagesOf hi))) off len hwin).init ops) :=
   range_history_refines _ off len hwin ops
 
--- OPEN (full statement): reader_seek_refines for every history, including seeks beyond the last
---   row: `RRunOK T (some 0) ops (routs (rinit ms) ops)` for all `ops`.
-/-- **reader_seek_refines, partial.** The row reader (`rowGroupRows`: `RowGroup.Rows`,
-    `Reader`, `GenericReader`) over one page reader per column — columns with different page
-    layouts, each any machine refining the reference reader over the same `T` rows: `FilePages`
-    for one row group, `multiPages` for a file of several — delivers, after any history of
-    SeekToRow / ReadRows(n) / Reset, exactly rows `p .. p + min n (T - p)` from the reference
-    position `p` (`k` after a seek, `0` after Reset), the same range from every column; a failed
-    column read makes reads keep failing until the next seek.
-    Missing for the full statement: seeks beyond the last row (`k > T`: the machine interface does
-    not say that all columns refuse or accept alike), readers without columns, and the value-level
-    inner loop of `ReadRows` (rows are counted per page here; what a row is inside a repeated page
-    is `slice_spec`). -/
-theorem reader_seek_refines_partial (T : Nat) (ms : List Machine.{u}) (hne : ms ≠ [])
-    (hT : ∀ m ∈ ms, m.total = T) (ops : List ROp) (hops : ops.all (opOK T) = true) :
+/-- **reader_seek_refines.** The row reader (`rowGroupRows`: `RowGroup.Rows`, `Reader`,
+    `GenericReader`, row-range views) over one page reader per column — columns with different
+    page layouts, each any machine refining the reference reader over the same `T` rows — delivers,
+    after ANY history of SeekToRow / ReadRows(n) / Reset, exactly rows `p .. p + min n (T - p)` from
+    the reference position `p` (`k` after an accepted seek — nothing beyond the last row —, `0`
+    after Reset), the same range from every column; a failed column read makes reads keep failing
+    until the next seek. Seeks beyond the last row included: the page readers either all accept
+    them (`L = true`: `FilePages` over chunks with pages, `multiPages`; the reader then stands at
+    the end) or all refuse them (`L = false`: `rangePages`; the first column refuses and nothing
+    has moved).
+    Not covered: a row reader whose columns answer such a seek differently (the loop of
+    `rowGroupRows.SeekToRow` would leave the accepted columns moved — no constructor of the
+    library mixes them), readers without columns, and the value level of `ReadRows` (rows are
+    counted per page here; see `read_rows_values` below). -/
+theorem reader_seek_refines (T : Nat) (L : Bool) (ms : List Machine.{u}) (hne : ms ≠ [])
+    (hT : ∀ m ∈ ms, m.total = T) (hfar : ∀ m ∈ ms, Mode L m) (ops : List ROp) :
     RRunOK T (some 0) ops (routs (rinit ms) ops) := by
-  have := rrun_refines T ops (rinit ms) (rinit_inv T ms hne hT) hops
+  have := rrun_refines T L ops (rinit ms) (rinit_inv T L ms hne hT hfar)
   simpa [rpos, rinit] using this
 
+/-- a chunk that has pages -/
+abbrev PagedChunk := { c : Chunk // (∀ r ∈ c.rows, 0 < r) ∧ c.rows ≠ [] }
+def pagesOf' (hi : Bool) (c : PagedChunk) : Machine := filePages c.1 c.2.1 hi
+
 /-- one row group: every column its own chunk (own page layout), all of `T` rows -/
-example (hi : Bool) (T : Nat) (cols : List GoodChunk) (hne : cols ≠ [])
-    (hT : ∀ c ∈ cols, Seek.total c.1 = T) (ops : List ROp) (hops : ops.all (opOK T) = true) :
-    RRunOK T (some 0) ops (routs (rinit (cols.map (pagesOf hi))) ops) :=
-  reader_seek_refines_partial T _ (by simpa using hne)
-    (by intro m hm; simp only [List.mem_map] at hm; obtain ⟨c, hc, rfl⟩ := hm; exact hT c hc) ops hops
+example (hi : Bool) (T : Nat) (cols : List PagedChunk) (hne : cols ≠ [])
+    (hT : ∀ c ∈ cols, Seek.total c.1 = T) (ops : List ROp) :
+    RRunOK T (some 0) ops (routs (rinit (cols.map (pagesOf' hi))) ops) :=
+  reader_seek_refines T true _ (by simpa using hne)
+    (by intro m hm; simp only [List.mem_map] at hm; obtain ⟨c, hc, rfl⟩ := hm; exact hT c hc)
+    (by intro m hm; simp only [List.mem_map] at hm; obtain ⟨c, _, rfl⟩ := hm
+        exact filePages_lenient c.1 c.2.1 hi c.2.2) ops
 
 /-- a file of several row groups: every column is a `multiPages` over its chunks -/
 example (hi : Bool) (T : Nat) (cols : List (List GoodChunk)) (hne : cols ≠ [])
-    (hT : ∀ cs ∈ cols, Multi.total (cs.map (pagesOf hi)) = T) (ops : List ROp) (hops : ops.all (opOK T) = true) :
+    (hT : ∀ cs ∈ cols, Multi.total (cs.map (pagesOf hi)) = T) (ops : List ROp) :
     RRunOK T (some 0) ops (routs (rinit (cols.map fun cs => multiM (cs.map (pagesOf hi)))) ops) :=
-  reader_seek_refines_partial T _ (by simpa using hne)
-    (by intro m hm; simp only [List.mem_map] at hm; obtain ⟨cs, hc, rfl⟩ := hm; exact hT cs hc) ops hops
+  reader_seek_refines T true _ (by simpa using hne)
+    (by intro m hm; simp only [List.mem_map] at hm; obtain ⟨cs, hc, rfl⟩ := hm; exact hT cs hc)
+    (by intro m hm; simp only [List.mem_map] at hm; obtain ⟨cs, _, rfl⟩ := hm; exact multiM_lenient _) ops
+
+/-- the rows of a row-range view `[off, off+len)` of a row group (strict page readers) -/
+example (hi : Bool) (off len : Nat) (cols : List { c : GoodChunk // off + len ≤ Seek.total c.1 }) (hne : cols ≠ [])
+    (ops : List ROp) :
+    RRunOK len (some 0) ops (routs (rinit (cols.map fun c => rangeM (pagesOf hi c.1) off len c.2)) ops) :=
+  reader_seek_refines len false _ (by simpa using hne)
+    (by intro m hm; simp only [List.mem_map] at hm; obtain ⟨c, _, rfl⟩ := hm; rfl)
+    (by intro m hm; simp only [List.mem_map] at hm; obtain ⟨c, _, rfl⟩ := hm; exact rangeM_strict _ _ _ _) ops
 
 /-- non-vacuity of the hypotheses: two columns of 30 rows cut into pages differently -/
 example : ∀ r ∈ ({ rows := [10, 10, 10], dict := false } : Chunk).rows, 0 < r := by decide
@@ -135,5 +153,61 @@ theorem unaligned_seek_refines (chunk : List (List Nat)) (hne : ∀ p ∈ chunk,
   ⟨fun k => SeekUnaligned.seek_spec chunk k hwf, fun s hp => SeekUnaligned.readPage_spec chunk hne s hp⟩
 
 example : (SeekUnaligned.readPage SeekUnaligned.demo (SeekUnaligned.seek 2)).2 = .page [0] := by decide
+
+/-! ### the deprecated `Reader`: two row readers, one cursor (`ReaderCursor.lean`) -/
+open PqModel.ReaderCursor in
+/-- **reader_cursor_refines.** `parquet.Reader` (and `GenericReader`, which wraps it) keeps a row
+    reader for `ReadRows` and another for `Read(&v)` behind one `rowIndex`. Over any two row readers
+    of the same `T` rows that refine the reference row reader and accept every seek, every history
+    that mixes SeekToRow / ReadRows(n) / Read / Reset in any order is a run of ONE row counter:
+    `ReadRows` after `Read` continues where `Read` stopped and vice versa, a seek moves both, and a
+    failed read delivers nothing and leaves the position where it was. -/
+theorem reader_cursor_refines (mf mr : RowM.{u}) (T : Nat) (hf : mf.total = T) (hr : mr.total = T)
+    (ops : List XOp) :
+    XRunOK T 0 ops (outs step (init mf.toRowR mr.toRowR) ops) :=
+  run_refines mf mr T hf hr ops _ (init_inv mf mr)
+
+open PqModel.ReaderCursor in
+/-- `Reader` over a file of several row groups: both sub-readers are `rowGroupRows` over `multiPages` -/
+example (hi : Bool) (T : Nat) (cols : List (List GoodChunk)) (hne : cols ≠ [])
+    (hT : ∀ cs ∈ cols, Multi.total (cs.map (pagesOf hi)) = T) (ops : List XOp) :
+    let ms := cols.map fun cs => multiM (cs.map (pagesOf hi))
+    ∀ (h1 : ms ≠ []) (h2 : ∀ m ∈ ms, m.total = T) (h3 : ∀ m ∈ ms, m.Lenient),
+    XRunOK T 0 ops (outs step (init (rowsM T ms h1 h2 h3).toRowR (rowsM T ms h1 h2 h3).toRowR) ops) :=
+  fun h1 h2 h3 => reader_cursor_refines (rowsM T _ h1 h2 h3) (rowsM T _ h1 h2 h3) T rfl rfl ops
+
+open PqModel.ReaderCursor in
+/-- the same `Reader` with the seek taken out of `ReadRows` is refuted: `Read(&v)` then `ReadRows(1)`
+    delivers row 0 twice -/
+example : ¬ XRunOK 10 0 mixed (outs stepNoSeek (init (refR 10) (refR 10)) mixed) := by
+  intro h
+  have h0 : outs stepNoSeek (init (refR 10) (refR 10)) mixed = [.rows 0 1, .rows 0 1] := by decide
+  rw [h0] at h
+  cases h with
+  | cons a b =>
+    rcases a with ⟨_, rfl⟩ | ⟨a, _⟩
+    · cases b with
+      | cons c _ =>
+        rcases c with ⟨c, _⟩ | ⟨c, _⟩
+        · simp at c
+        · cases c
+    · cases a
+
+/-! ### the value level of `ReadRows` (`ReadRowsValues.lean`) -/
+open PqModel.ReadRowsValues in
+/-- **read_rows_values.** The loop of `rowGroupRows.ReadRows` over one column rebuilds rows from
+    repetition levels: whatever the batches `ReadValues` hands out (page ends, a value buffer of any
+    size, rows spanning several refills), `ReadRows(n)` appends to row `i` exactly the values of
+    the column's `i`-th remaining row for `i < min n |rows|`, counts `min n |rows|` rows and leaves
+    the column on the first value of the next row. -/
+theorem read_rows_values {α : Type} (rep : α → Nat) (n : Nat) (c : ColV α) (rows : List (List α))
+    (hwf : ∀ r ∈ rows, RowWF rep r) (hs : c.stream = rows.flatten) (hne : ∀ b ∈ c.src, b ≠ []) :
+    (colRows rep n c).2 = rows.take n ++ List.replicate (n - rows.length) [] ∧
+    rowCount (colRows rep n c).2 = min n rows.length ∧
+    (colRows rep n c).1.stream = (rows.drop n).flatten :=
+  let h := PqModel.ReadRowsValues.read_rows_values rep n c rows hwf hs hne
+  ⟨h.1, h.2.1, h.2.2.1⟩
+
+example : (PqModel.ReadRowsValues.colRows id 2 PqModel.ReadRowsValues.demo).2 = [[0, 1, 1], [0]] := by decide
 
 end PqModel.Props.C08
